@@ -191,3 +191,66 @@ func (c *CtxInfo) postedIn(f *Fn) []*Fn {
 	}
 	return out
 }
+
+// effective resolves closure-to-method delegation: a posted closure whose body is a single call of a declared
+// function of the same package is analysed through that function. The returned mapping translates objects of the
+// closure's environment that are passed as arguments (x or &x) into the callee's parameter objects.
+func (c *CtxInfo) effective(l *Fn) (*Fn, func(types.Object) types.Object) {
+	id := func(o types.Object) types.Object { return o }
+	if l == nil || l.Lit == nil {
+		return l, id
+	}
+	body := l.Body().List
+	if len(body) != 1 {
+		return l, id
+	}
+	var call *ast.CallExpr
+	switch s := body[0].(type) {
+	case *ast.ExprStmt:
+		call, _ = s.X.(*ast.CallExpr)
+	case *ast.ReturnStmt:
+		if len(s.Results) == 1 {
+			call, _ = s.Results[0].(*ast.CallExpr)
+		}
+	}
+	if call == nil {
+		return l, id
+	}
+	fn := c.p.Callee(l.Pkg, call)
+	if fn == nil {
+		return l, id
+	}
+	tf := c.p.FnOfObj(fn)
+	if tf == nil || tf.Pkg != l.Pkg {
+		return l, id
+	}
+	info := l.Pkg.TypesInfo
+	m := map[types.Object]types.Object{}
+	for i, a := range call.Args {
+		a = ast.Unparen(a)
+		if u, ok := a.(*ast.UnaryExpr); ok {
+			a = ast.Unparen(u.X)
+		}
+		if idn, ok := a.(*ast.Ident); ok {
+			if po := paramObj(tf, i); po != nil {
+				m[info.ObjectOf(idn)] = po
+			}
+		}
+	}
+	return tf, func(o types.Object) types.Object {
+		if t, ok := m[o]; ok {
+			return t
+		}
+		return o
+	}
+}
+
+// completionsIn returns the closures posted directly in f, resolved through delegation.
+func (c *CtxInfo) completionsIn(f *Fn) []*Fn {
+	var out []*Fn
+	for _, l := range c.postedIn(f) {
+		e, _ := c.effective(l)
+		out = append(out, e)
+	}
+	return out
+}
